@@ -92,7 +92,7 @@ pub fn exec(a: &[&str]) -> String {
             // `Debug` renders the letters like `Display`; `for b in &d` is the same iteration
             let dbg_ok = format!("{:?}", d) == d.to_string();
             let into_ok = (&d).into_iter().collect::<Vec<u8>>() == bytes;
-            let it = format!("{}:{}:{}", it, dbg_ok as u8, into_ok as u8);
+            let it = format!("{}:{}:{}:{}", it, dbg_ok as u8, into_ok as u8, stateful(|| d.iter(), |b| b.to_string()));
             format!(
                 "{}|bytes={} ascii={} disp={} rev={} rc={} eqc={} hashc={} cmpc={} cmpo={} eqo={} nd={} it={}",
                 tr.join(";"),
